@@ -108,10 +108,10 @@ def run(run):
                             law("absorption A || (A && B) = A", QG.mk("or", a, both), R(a)[0], both)
                             # a negated group whose first / last operand is itself negated
                             na, nb = QG.mk("not", a), QG.mk("not", b)
-                            law("!(!A && B) = A ∪ (all - B)", ("not", ("paren", ("and", na, b))), R(a)[0] | (universe - R(b)[0]), both)
-                            law("!(!A || B) = A ∩ (all - B)", ("not", ("paren", ("or", na, b))), R(a)[0] & (universe - R(b)[0]), both)
-                            law("!(A && !B) = (all - A) ∪ B", ("not", ("paren", ("and", a, nb))), (universe - R(a)[0]) | R(b)[0], both)
-                            law("!(!A && !B) = A ∪ B", ("not", ("paren", ("and", na, nb))), R(a)[0] | R(b)[0], both)
+                            law("!(!A && B) = A ∪ (all - B)", ("not", ("paren", QG.mk("and", na, b))), R(a)[0] | (universe - R(b)[0]), both)
+                            law("!(!A || B) = A ∩ (all - B)", ("not", ("paren", QG.mk("or", na, b))), R(a)[0] & (universe - R(b)[0]), both)
+                            law("!(A && !B) = (all - A) ∪ B", ("not", ("paren", QG.mk("and", a, nb))), (universe - R(a)[0]) | R(b)[0], both)
+                            law("!(!A && !B) = A ∪ B", ("not", ("paren", QG.mk("and", na, nb))), R(a)[0] | R(b)[0], both)
                             # parentheses only group: every operand written in its own parentheses
                             P = lambda x: ("paren", x)
                             law("parentheses !((A) && (B)) = all - (A ∩ B)", ("not", P(("and", P(a), P(b)))), universe - (R(a)[0] & R(b)[0]), both)
